@@ -161,6 +161,27 @@ def broadcast_monitor(ck, k, dn, pairs, shapes, item_every, g):
                     r, _ = close(flat[i], oi, u)
                     ck.ratio("broadcast.items", regime, r, 1.0, entry, "flat_batch_differs_from_0d_item", wit)
                 ck.count("broadcast.items", regime, key=(k, dn, op, sa, sb))
+                if n >= 2:
+                    # the same with a first operand mixing regimes (identity item, tiny item, generic items): item vs item alone
+                    Xm_raw = raw(Xe).clone()
+                    Xm_raw[(pi + 1) % n] = raw(pp.identity_like(rewrap(Xm_raw[:1].clone(), X)))[0]
+                    if n >= 3:
+                        a_ = L.GRP2ALG[k]
+                        Xm_raw[(pi + 2) % n] = raw(pp.LieTensor(torch.full((L.ALG[a_],), 1e-6, dtype=torch.float64).to(dtype), ltype=lie.LT[a_]).Exp())
+                    regm = regime + "/mixed-regimes"
+                    witm = dict(wit, mixed="identity item, tiny item, generic items in the first operand", items=n)
+                    okm, om = ck.call("broadcast.mixed", regm, entry, apply_binary, op, rewrap(Xm_raw.clone(), X), Ye, witness=witm)
+                    ck.count("broadcast.mixed", regm, key=(k, dn, op, sa, sb, "mixed"))
+                    if okm:
+                        worst = 0.0
+                        for i in range(n):
+                            oki, oi = ck.call("broadcast.mixed", regm, entry, apply_binary, op, rewrap(Xm_raw[i].clone(), X),
+                                              rewrap(raw(Ye)[i].clone(), Y), witness=dict(witm, item=i))
+                            if oki:
+                                ri, _ = close(raw(om)[i], raw(oi), u)
+                                worst = max(worst, ri)
+                        ck.ratio("broadcast.mixed", regm, worst, 1.0, entry, "item_of_a_mixed_batch_differs_from_the_item_evaluated_alone", witm)
+                        ck.mark("broadcast/mixed-regimes-binary")
     # unary ops over every shape
     a = L.GRP2ALG[k]
     for si, s in shapes:
@@ -488,6 +509,6 @@ def run(ck):
     if ck.shard >= 2 % ck.nshards or ck.nshards < 3:
         from .c06_faults import fault_monitor
         fault_monitor(ck, thorough)
-    ck.require("broadcast/mixed-regimes")
+    ck.require("broadcast/mixed-regimes", "broadcast/mixed-regimes-binary")
     ck.floor("broadcast", 200)
     ck.floor("broadcast.mixed", 40)
